@@ -13,17 +13,24 @@ structure TokD where
   accTo : Int
   exp : Int
   jti : Option String
+  aud : String   -- the client the token was issued for
 
-structure St where
+/-- one middleware instance: its client id, its limiter parameters and its own caches -/
+structure InstD where
+  i : Nat
+  client : String
   F : Verify.Facts
-  toks : List TokD
   v : Verify.V
 
-def tokOf (toks : List TokD) : Verify.TokOf :=
+structure St where
+  toks : List TokD
+  insts : List InstD
+
+def tokOf (toks : List TokD) (client : String) : Verify.TokOf :=
   { exp := fun id => match toks.find? (·.id == id) with | some t => t.exp | none => 0,
     jti := fun id => match toks.find? (·.id == id) with | some t => t.jti | none => none,
     scratch := fun id now => match toks.find? (·.id == id) with
-      | some t => t.valid && decide (t.accFrom ≤ now) && decide (now ≤ t.accTo)
+      | some t => t.valid && t.aud == client && decide (t.accFrom ≤ now) && decide (now ≤ t.accTo)
       | none => false }
 
 def ns : Int := 1000000000
@@ -32,9 +39,14 @@ def mkFacts (R : Int) : Verify.Facts :=
   { se := Current.se, r := Current.limiterRate R, b := Current.limiterBurst R * Limiter.U,
     blTTL := Current.blacklistSec * ns, skew := Current.skewFuture * ns, revokeUntilExp := Current.revokeUntilExp }
 
-def init (R : Int) : St :=
+def mkInst (i : Nat) (client : String) (R : Int) : InstD :=
   let F := mkFacts R
-  { F := F, toks := [], v := ⟨Cache.init Current.cacheCap, Cache.init Current.cacheCap, Limiter.init (Current.limiterBurst R)⟩ }
+  { i := i, client := client, F := F, v := ⟨Cache.init Current.cacheCap, Cache.init Current.cacheCap, Limiter.init (Current.limiterBurst R)⟩ }
+
+def init (R : Int) : St := { toks := [], insts := [mkInst 0 "cid" R] }
+
+def instOf (st : St) (i : Nat) : InstD := (st.insts.find? (·.i == i)).getD (mkInst i "cid" 100)
+def setInst (st : St) (d : InstD) : St := { st with insts := d :: st.insts.filter (·.i != d.i) }
 
 /-- width of the band around the admission threshold inside which the float64 implementation may decide either way:
     x/time/rate truncates the wait to whole nanoseconds (a deficit below `r` units is admitted) and accumulates rounding -/
@@ -43,33 +55,36 @@ def band (F : Verify.Facts) : Int := F.r + 200000
 def step (st : St) (j : Json) : St × Option Json :=
   match jS j "op" with
   | "vcfg" => (init (jI j "R"), none)
+  | "vinst" => (setInst st (mkInst (jN j "i") (jS j "client") (jI j "R")), none)   -- a further instance of the same process
   | "vtok" =>
     let t : TokD := { id := jS j "id", valid := jB j "valid", accFrom := jI j "accFrom", accTo := jI j "accTo", exp := jI j "exp",
-                      jti := (j.getObjValAs? String "jti").toOption }
+                      jti := (j.getObjValAs? String "jti").toOption, aud := if jHas j "aud" then jS j "aud" else "cid" }
     ({ st with toks := t :: st.toks }, none)
   | "verify" =>
     let now := jI j "now"
     let id := jS j "id"
-    let T := tokOf st.toks
-    let cached := (Cache.get st.F.se st.v.tc now id).2.isSome
-    let refill := Limiter.refill st.F.r st.F.b st.v.lim now
-    let near := !cached && decide ((refill - Limiter.U).natAbs ≤ (band st.F).natAbs)
+    let d := instOf st (jN j "inst")
+    let T := tokOf st.toks d.client
+    let cached := (Cache.get d.F.se d.v.tc now id).2.isSome
+    let refill := Limiter.refill d.F.r d.F.b d.v.lim now
+    let near := !cached && decide ((refill - Limiter.U).natAbs ≤ (band d.F).natAbs)
     if near then
       -- follow the implementation's decision at the threshold; never compare it
       let impl := ((j.getObjVal? "obs").toOption.map (fun o => jS o "r")).getD ""
       let admitted := impl != "refuse"
       let a : Limiter.L × Bool := if admitted then (⟨refill - Limiter.U, now⟩, true) else (⟨refill, now⟩, false)
-      let (v', ok) := Verify.verifyWith st.F T st.v now id a
+      let (v', ok) := Verify.verifyWith d.F T d.v now id a
       let r := if !admitted then "*" else if ok then "accept" else "reject"
-      ({ st with v := v' }, some (Json.mkObj [("r", Json.str r), ("boundary", Json.bool true)]))
+      (setInst st { d with v := v' }, some (Json.mkObj [("r", Json.str r), ("boundary", Json.bool true)]))
     else
-      let a := Limiter.allow st.F.r st.F.b st.v.lim now
-      let (v', ok) := Verify.verify st.F T st.v now id
+      let a := Limiter.allow d.F.r d.F.b d.v.lim now
+      let (v', ok) := Verify.verify d.F T d.v now id
       let r := if ok then "accept" else if !cached && !a.2 then "refuse" else "reject"
-      ({ st with v := v' }, some (Json.mkObj [("r", Json.str r)]))
+      (setInst st { d with v := v' }, some (Json.mkObj [("r", Json.str r)]))
   | "revoke" =>
-    let v' := Verify.revoke st.F (tokOf st.toks) st.v (jI j "now") (jS j "id")
-    ({ st with v := v' }, some (Json.mkObj [("r", Json.str "ok")]))
+    let d := instOf st (jN j "inst")
+    let v' := Verify.revoke d.F (tokOf st.toks d.client) d.v (jI j "now") (jS j "id")
+    (setInst st { d with v := v' }, some (Json.mkObj [("r", Json.str "ok")]))
   | _ => (st, none)
 
 def main : IO UInt32 := do
